@@ -45,7 +45,7 @@ def main():
             return 2
         if not args.no_tests:
             t = subprocess.run(
-                [os.path.join(VERIF, "tools", "baseline.sh"), copy],
+                [os.path.join(VERIF, "tools", "baseline.sh"), copy], env=dict(os.environ, TEST_TIMEOUT="60"),
                 capture_output=True, text=True,
             )
             last = t.stdout.strip().splitlines()[-1] if t.stdout.strip() else ""
